@@ -224,6 +224,8 @@ def handle (toks : List String) : String :=
     match parseMode mode, parseList (·.toNat?) pend, flen.toNat?, parsePhases phases with
     | some m, some pd, some n, some ps => runAs m (vectored = "1") pd n ps
     | _, _, _, _ => "bad-op"
+  -- out-of-domain probe (a cancelled `next_row_group` future): recorded, never compared
+  | ["cn", _file, _opts, _k] => "SKIP"
   | _ => "bad-op"
 
 end ArrowModel.C15
